@@ -309,6 +309,129 @@ fn judge_join(case: &JoinCase, a: &[Val], b: &[Val], out: &Val) -> Result<(), St
     Ok(())
 }
 
+/// One round of the `join` built-in with its own oracle: a generated join program, compiled with and
+/// without de-duplication and converted to the register form, run on all 0/1-keyed sorted inputs
+/// (plain joins of small sizes) and on random sorted inputs (also used by C01: the value of a program
+/// that returns `join(a, b)`).
+pub fn join_builtin_round(ctx: &Ctx, rng: &mut Rng, c: &mut Counts, distinct: &mut HashSet<u64>, samples: &mut Vec<Value>, it: u64, max_nm: usize) {
+        // ---- join built-in with its own oracle
+        let case = gen_join_builtin(rng, max_nm);
+        let (on, off) = match (gl::compile(&case.src, true, false), gl::compile(&case.src, false, false)) {
+            (CompileOutcome::Ok(a), CompileOutcome::Ok(b)) => (a, b),
+            (CompileOutcome::Crashed(msg), _) | (_, CompileOutcome::Crashed(msg)) => {
+                ctx.violation(&format!("compiler crashed on a join program: {msg}"), json!({"kind": "program", "program": case.src}));
+                return;
+            }
+            (CompileOutcome::Rejected(k, msg), _) | (_, CompileOutcome::Rejected(k, msg)) => {
+                c.inc("join programs rejected");
+                if c.get("join programs rejected") <= 2 {
+                    ctx.inconclusive(&format!("join program rejected ({k}): {}\n{}", case.src, msg.chars().take(400).collect::<String>()));
+                }
+                return;
+            }
+        };
+        c.inc("join programs compiled");
+        c.inc(&format!("join size pair {}x{}", case.n, case.m));
+        distinct.insert(crate::util::fnv(case.src.as_bytes()));
+        let d = Defs::default();
+        let ta = Ty::Array(Box::new(case.ea.clone()), case.n);
+        let tb = Ty::Array(Box::new(case.eb.clone()), case.m);
+        let rel = if case.assoc { Ty::Tuple(vec![Ty::Bool, case.ea.clone(), case.eb.clone()]) } else { Ty::Tuple(vec![Ty::Bool, case.ea.clone()]) };
+        let tret = Ty::Array(Box::new(rel), (case.n + case.m).saturating_sub(1));
+        let kt = if case.assoc {
+            let Ty::Tuple(f) = &case.ea else { unreachable!() };
+            f[0].clone()
+        } else {
+            case.ea.clone()
+        };
+        let mut inputs: Vec<(Vec<Val>, Vec<Val>)> = vec![];
+        // all 0/1-keyed sorted arrays (duplicates within a side: plain join only)
+        if !case.assoc && case.n + case.m <= 12 {
+            for za in 0..=case.n {
+                for zb in 0..=case.m {
+                    let a: Vec<Val> = (0..case.n).map(|i| key_val(&kt, (i >= za) as u64)).collect();
+                    let b: Vec<Val> = (0..case.m).map(|i| key_val(&kt, (i >= zb) as u64)).collect();
+                    inputs.push((a, b));
+                }
+            }
+            c.add("join executions on 0/1 keys", ((case.n + 1) * (case.m + 1)) as u64);
+        }
+        for _ in 0..40 {
+            let u = (case.n + case.m) as u64;
+            let universe = match rng.below(3) {
+                0 => (u + 1).min(key_universe_max(&kt)),
+                1 => (2 * u + 3).min(key_universe_max(&kt)),
+                _ => key_universe_max(&kt).min(1 << 24),
+            }
+            .max(case.n.max(case.m) as u64 + 1);
+            let strict = case.assoc || rng.chance(2, 3);
+            let mut ka = sorted_keys(rng, case.n, universe, strict);
+            let mut kb = if rng.chance(1, 6) && case.n == case.m { ka.clone() } else { sorted_keys(rng, case.m, universe, strict) };
+            if rng.chance(1, 3) {
+                mirror_to_top(&mut ka, key_universe_max(&kt));
+                mirror_to_top(&mut kb, key_universe_max(&kt));
+            }
+            inputs.push((
+                ka.iter().map(|k| elem_with_key(rng, &case.ea, *k, &d)).collect(),
+                kb.iter().map(|k| elem_with_key(rng, &case.eb, *k, &d)).collect(),
+            ));
+        }
+        let mut reg = bits::RegStats::default();
+        let r_on = match crate::util::catch(|| garble_lang::register_circuit::Circuit::from(gl::ssa(&on))) {
+            Ok(r) => r,
+            Err(p) => {
+                ctx.violation(&format!("conversion of a compiled join program to a register circuit panicked: {p}"), json!({"kind": "program", "program": case.src}));
+                return;
+            }
+        };
+        'cases: for chunk in inputs.chunks(64) {
+            let encs: Vec<Vec<bool>> = chunk
+                .iter()
+                .map(|(a, b)| {
+                    let mut v = ty::encode_vec(&Val::Array(a.clone()), &ta, &d);
+                    v.extend(ty::encode_vec(&Val::Array(b.clone()), &tb, &d));
+                    if case.n + case.m == 0 {
+                        v.push(false); // the parameter `z`
+                    }
+                    v
+                })
+                .collect();
+            let words = bits::pack_lanes(&encs);
+            let outs = [
+                ("ssa/dedup-on", bits::eval_ssa(gl::ssa(&on), &words)),
+                ("ssa/dedup-off", bits::eval_ssa(gl::ssa(&off), &words)),
+                ("register/dedup-on", bits::eval_reg(&r_on, &words, &mut reg)),
+            ];
+            for (cfgname, out) in outs {
+                let out = match out {
+                    Ok(o) => o,
+                    Err(e) => {
+                        ctx.violation(&format!("join program ({cfgname}): {e}"), json!({"kind": "program", "program": case.src}));
+                        break 'cases;
+                    }
+                };
+                for (l, (a, b)) in chunk.iter().enumerate() {
+                    c.inc("join executions judged");
+                    let verdict = match exec::observe(&out, l, &tret, &d) {
+                        exec::Observed::Panic { reason, .. } => Err(format!("join panicked ({})", gl::reason_name(reason))),
+                        exec::Observed::Value(None, _) => Err("undecodable result".to_string()),
+                        exec::Observed::Value(Some(v), _) => judge_join(&case, a, b, &v).map_err(|e| format!("{e}; result {}", ty::val_text(&v, &tret, &d))),
+                    };
+                    if let Err(e) = verdict {
+                        ctx.violation(
+                            &format!("join built-in ({cfgname}, {}x{}): {}", case.n, case.m, e.chars().take(160).collect::<String>()),
+                            json!({"kind": "join", "program": case.src, "config": cfgname, "a": ty::val_text(&Val::Array(a.clone()), &ta, &d), "b": ty::val_text(&Val::Array(b.clone()), &tb, &d), "problem": e}),
+                        );
+                        break 'cases;
+                    }
+                }
+            }
+        }
+        if samples.len() < 2 && it > 8 && case.n + case.m < 7 {
+            samples.push(json!({"kind": "join", "program": case.src, "a": ty::val_text(&Val::Array(inputs[0].0.clone()), &ta, &d), "b": ty::val_text(&Val::Array(inputs[0].1.clone()), &tb, &d)}));
+        }
+}
+
 pub fn run(ctx: &Ctx) -> i32 {
     let max_nm = ctx.tier.pick(6usize, 10usize);
     let mut counts = Counts::default();
@@ -475,122 +598,7 @@ pub fn run(ctx: &Ctx) -> i32 {
                         "first_args": tuples[0].iter().zip(&prog.main().params).map(|(a, p)| ty::val_text(a, &p.ty, &prog.defs)).collect::<Vec<_>>()}));
                 }
             } else {
-                // ---- join built-in with its own oracle
-                let case = gen_join_builtin(&mut rng, max_nm);
-                let (on, off) = match (gl::compile(&case.src, true, false), gl::compile(&case.src, false, false)) {
-                    (CompileOutcome::Ok(a), CompileOutcome::Ok(b)) => (a, b),
-                    (CompileOutcome::Crashed(msg), _) | (_, CompileOutcome::Crashed(msg)) => {
-                        ctx.violation(&format!("compiler crashed on a join program: {msg}"), json!({"kind": "program", "program": case.src}));
-                        continue;
-                    }
-                    (CompileOutcome::Rejected(k, msg), _) | (_, CompileOutcome::Rejected(k, msg)) => {
-                        c.inc("join programs rejected");
-                        if c.get("join programs rejected") <= 2 {
-                            ctx.inconclusive(&format!("join program rejected ({k}): {}\n{}", case.src, msg.chars().take(400).collect::<String>()));
-                        }
-                        continue;
-                    }
-                };
-                c.inc("join programs compiled");
-                c.inc(&format!("join size pair {}x{}", case.n, case.m));
-                distinct.insert(crate::util::fnv(case.src.as_bytes()));
-                let d = Defs::default();
-                let ta = Ty::Array(Box::new(case.ea.clone()), case.n);
-                let tb = Ty::Array(Box::new(case.eb.clone()), case.m);
-                let rel = if case.assoc { Ty::Tuple(vec![Ty::Bool, case.ea.clone(), case.eb.clone()]) } else { Ty::Tuple(vec![Ty::Bool, case.ea.clone()]) };
-                let tret = Ty::Array(Box::new(rel), (case.n + case.m).saturating_sub(1));
-                let kt = if case.assoc {
-                    let Ty::Tuple(f) = &case.ea else { unreachable!() };
-                    f[0].clone()
-                } else {
-                    case.ea.clone()
-                };
-                let mut inputs: Vec<(Vec<Val>, Vec<Val>)> = vec![];
-                // all 0/1-keyed sorted arrays (duplicates within a side: plain join only)
-                if !case.assoc && case.n + case.m <= 12 {
-                    for za in 0..=case.n {
-                        for zb in 0..=case.m {
-                            let a: Vec<Val> = (0..case.n).map(|i| key_val(&kt, (i >= za) as u64)).collect();
-                            let b: Vec<Val> = (0..case.m).map(|i| key_val(&kt, (i >= zb) as u64)).collect();
-                            inputs.push((a, b));
-                        }
-                    }
-                    c.add("join executions on 0/1 keys", ((case.n + 1) * (case.m + 1)) as u64);
-                }
-                for _ in 0..40 {
-                    let u = (case.n + case.m) as u64;
-                    let universe = match rng.below(3) {
-                        0 => (u + 1).min(key_universe_max(&kt)),
-                        1 => (2 * u + 3).min(key_universe_max(&kt)),
-                        _ => key_universe_max(&kt).min(1 << 24),
-                    }
-                    .max(case.n.max(case.m) as u64 + 1);
-                    let strict = case.assoc || rng.chance(2, 3);
-                    let mut ka = sorted_keys(&mut rng, case.n, universe, strict);
-                    let mut kb = if rng.chance(1, 6) && case.n == case.m { ka.clone() } else { sorted_keys(&mut rng, case.m, universe, strict) };
-                    if rng.chance(1, 3) {
-                        mirror_to_top(&mut ka, key_universe_max(&kt));
-                        mirror_to_top(&mut kb, key_universe_max(&kt));
-                    }
-                    inputs.push((
-                        ka.iter().map(|k| elem_with_key(&mut rng, &case.ea, *k, &d)).collect(),
-                        kb.iter().map(|k| elem_with_key(&mut rng, &case.eb, *k, &d)).collect(),
-                    ));
-                }
-                let mut reg = bits::RegStats::default();
-                let r_on = match crate::util::catch(|| garble_lang::register_circuit::Circuit::from(gl::ssa(&on))) {
-                    Ok(r) => r,
-                    Err(p) => {
-                        ctx.violation(&format!("conversion of a compiled join program to a register circuit panicked: {p}"), json!({"kind": "program", "program": case.src}));
-                        continue;
-                    }
-                };
-                'cases: for chunk in inputs.chunks(64) {
-                    let encs: Vec<Vec<bool>> = chunk
-                        .iter()
-                        .map(|(a, b)| {
-                            let mut v = ty::encode_vec(&Val::Array(a.clone()), &ta, &d);
-                            v.extend(ty::encode_vec(&Val::Array(b.clone()), &tb, &d));
-                            if case.n + case.m == 0 {
-                                v.push(false); // the parameter `z`
-                            }
-                            v
-                        })
-                        .collect();
-                    let words = bits::pack_lanes(&encs);
-                    let outs = [
-                        ("ssa/dedup-on", bits::eval_ssa(gl::ssa(&on), &words)),
-                        ("ssa/dedup-off", bits::eval_ssa(gl::ssa(&off), &words)),
-                        ("register/dedup-on", bits::eval_reg(&r_on, &words, &mut reg)),
-                    ];
-                    for (cfgname, out) in outs {
-                        let out = match out {
-                            Ok(o) => o,
-                            Err(e) => {
-                                ctx.violation(&format!("join program ({cfgname}): {e}"), json!({"kind": "program", "program": case.src}));
-                                break 'cases;
-                            }
-                        };
-                        for (l, (a, b)) in chunk.iter().enumerate() {
-                            c.inc("join executions judged");
-                            let verdict = match exec::observe(&out, l, &tret, &d) {
-                                exec::Observed::Panic { reason, .. } => Err(format!("join panicked ({})", gl::reason_name(reason))),
-                                exec::Observed::Value(None, _) => Err("undecodable result".to_string()),
-                                exec::Observed::Value(Some(v), _) => judge_join(&case, a, b, &v).map_err(|e| format!("{e}; result {}", ty::val_text(&v, &tret, &d))),
-                            };
-                            if let Err(e) = verdict {
-                                ctx.violation(
-                                    &format!("join built-in ({cfgname}, {}x{}): {}", case.n, case.m, e.chars().take(160).collect::<String>()),
-                                    json!({"kind": "join", "program": case.src, "config": cfgname, "a": ty::val_text(&Val::Array(a.clone()), &ta, &d), "b": ty::val_text(&Val::Array(b.clone()), &tb, &d), "problem": e}),
-                                );
-                                break 'cases;
-                            }
-                        }
-                    }
-                }
-                if samples.len() < 2 && it > 8 && case.n + case.m < 7 {
-                    samples.push(json!({"kind": "join", "program": case.src, "a": ty::val_text(&Val::Array(inputs[0].0.clone()), &ta, &d), "b": ty::val_text(&Val::Array(inputs[0].1.clone()), &tb, &d)}));
-                }
+                join_builtin_round(ctx, &mut rng, &mut c, &mut distinct, &mut samples, it, max_nm);
             }
         }
         (c, st, distinct, samples)
